@@ -731,8 +731,20 @@ def run_history(seed, scratch: Path, rep: Report, *, nops, weights, checks, conc
                 late = rng.random() < 0.35
                 fb = FaultBackend(world.backend, 'fail_late' if late else 'crash', rng.randint(0, max(0, nmissing)))
                 snaps_before = {n for n in world.backend.objects if n.startswith('snapshots/')}
+                overlapped = None
                 try:
-                    await asyncio.wait_for(world.snapshot(user, src_dir, files, backend=fb, record=False), 60)
+                    if late and rng.random() < 0.6:
+                        # another session of the same key family snapshots the same files at the same time: it sees chunks the failing
+                        # command has already uploaded and only references them
+                        mate = rng.choice([u for u in world.users if u['fam'] == user['fam']])
+                        # (if the fault point is never reached - the other session uploaded first - the command completes: recorded)
+                        res_ = await asyncio.wait_for(asyncio.gather(world.snapshot(user, src_dir, files, backend=fb, record=True),
+                                                                      world.snapshot(mate, src_dir, files, fresh=True), return_exceptions=True), 90)
+                        overlapped = res_[1]
+                        if isinstance(overlapped, BaseException):
+                            viol('exception', f'a fault-free snapshot overlapping a failing one raised {type(overlapped).__name__}: {str(overlapped)[:120]}')
+                    else:
+                        await asyncio.wait_for(world.snapshot(user, src_dir, files, backend=fb, record=False), 60)
                 except BaseException:
                     pass
                 if late:
@@ -749,7 +761,12 @@ def run_history(seed, scratch: Path, rep: Report, *, nops, weights, checks, conc
                     if lost and published:
                         viol('referenced_chunk_missing', 'a snapshot was published although the upload of one of its chunks had failed for good '
                                                          '(the failing call was the last to finish): it is listed but cannot be restored')
-                descr.append(['snapshot-with-late-failing-upload' if late else 'interrupted-snapshot', user['name']])
+                descr.append(['snapshot-with-late-failing-upload' if late else 'interrupted-snapshot', user['name']] + (['overlapped'] if overlapped is not None else []))
+                if overlapped is not None and 'restore' in checks:
+                    ch_now, _, _ = world.lift()
+                    gone_ = world.referenced() - ch_now
+                    if gone_:
+                        viol('referenced_chunk_missing', f'{len(gone_)} chunk(s) referenced by a snapshot that completed are gone after an overlapping snapshot command failed')
                 segments.append([world.model_store(), [], []])
                 ops_model, observed = segments[-1][1], segments[-1][2]
                 continue
